@@ -120,6 +120,15 @@ class _PRange:
 
 prange = _PRange()
 CTX.prange_log = None
+NUM_THREADS = [16]
+
+
+def get_num_threads():
+    return NUM_THREADS[0]
+
+
+def set_num_threads(n):
+    NUM_THREADS[0] = int(n)
 
 
 def make_module():
@@ -128,6 +137,9 @@ def make_module():
     m.jit = jit
     m.vectorize = vectorize
     m.prange = prange
+    m.get_num_threads = get_num_threads
+    m.set_num_threads = set_num_threads
+    m.config = _types.SimpleNamespace(NUMBA_NUM_THREADS=16)
     for n in ('int8', 'int16', 'int32', 'int64', 'uint8', 'uint16', 'uint32', 'uint64', 'float32', 'float64'):
         setattr(m, n, _Type(n))
     m.boolean = _Type('bool')
